@@ -1,7 +1,67 @@
-(* Property C15 -- placeholder while the facts are being proved *)
+(* Property C15 -- graph constructions on the command line deliver the structure they name.
+   ONLY statements; every proof is `exact <lemma>` (lemmas in GraphGenFacts.v).
+   Every sampler is a function of an oracle stream of recorded random draws (GraphGen.v); the statements
+   quantify over EVERY stream: whenever the construction returns a graph, the graph has the promised structure. *)
 From Coq Require Import ZArith List Bool.
-From Cnfgen Require Import GText GraphIO GraphGen.
+From Cnfgen Require Import Comb GText GraphIO GraphIOFacts GraphGen GraphGenFacts.
 Import ListNotations.
 Open Scope Z_scope.
-Example C15_stub_nonvacuous : gg_guard_gnd [4; 4] = true.
+
+(* ---- (1) glrm: exactly m edges, for every m the guard lets through, both sampling strategies ---- *)
+(* the documented behaviour (dense branch samples from the list of all pairs): every 0 <= m <= L*R *)
+Theorem C15_m_edges_spec : forall L R m s G s',
+  gg_m_edges_spec L R m s = GGOk (G, s') ->
+  gg_nedges G = m /\ io_kind G = KBipartite /\ io_n G = L /\ io_r G = R /\ 0 <= m <= L * R.
+Proof. exact m_edges_spec_exact. Qed.
+Print Assumptions C15_m_edges_spec.
+(* the code as it is: only the sparse branch delivers *)
+Theorem C15_m_edges_partial : forall L R m s G s',
+  gg_m_edges_as_is L R m s = GGOk (G, s') -> m <= L * R / 3 ->
+  gg_nedges G = m /\ io_kind G = KBipartite /\ io_n G = L /\ io_r G = R /\ 0 <= m <= L * R.
+Proof. exact m_edges_sparse_exact. Qed.
+Print Assumptions C15_m_edges_partial.
+(* ... and the dense branch raises TypeError on a request the guard accepts (glrm 3 3 8): defect D10 *)
+Theorem C15_m_edges_refuted : exists L R m s, 0 <= m <= L * R /\ 1 <= L /\ 1 <= R /\
+  gg_m_edges_as_is L R m s = GGRaise ETypeError.
+Proof. exact m_edges_as_is_refuted. Qed.
+Print Assumptions C15_m_edges_refuted.
+Example C15_m_edges_nonvacuous :
+  gg_m_edges_spec 3 3 8 [0; 1; 2; 3; 4; 5; 6; 7] =
+    GGOk (mkIOG KBipartite [] 3 3 [(1,1); (1,2); (1,3); (2,1); (2,2); (2,3); (3,1); (3,2)], []) /\
+  gg_m_edges_as_is 3 3 3 [1; 1; 1; 1; 2; 2; 3; 1] = GGOk (mkIOG KBipartite [] 3 3 [(1,1); (2,2); (3,1)], []) /\
+  gg_m_edges_as_is 3 3 3 [1; 1; 4; 1] = GGBadOracle.
+Proof. vm_compute. repeat split. Qed.
+
+(* ---- (2) glrd: every left vertex has degree min(r, d) ---- *)
+Theorem C15_left_regular : forall l r d s G s', gg_left_regular l r d s = GGOk (G, s') ->
+  io_kind G = KBipartite /\ io_n G = l /\ io_r G = r /\
+  forall u, 1 <= u <= l -> Z.of_nat (length (gio_succs G u)) = Z.min r d.
+Proof. exact left_regular_degree. Qed.
+Print Assumptions C15_left_regular.
+Example C15_left_regular_nonvacuous :
+  gg_left_regular 2 3 2 [0; 2; 1; 0] = GGOk (mkIOG KBipartite [] 2 3 [(1,1); (1,3); (2,1); (2,2)], []).
 Proof. vm_compute. reflexivity. Qed.
+
+(* ---- (4) path, tree, pyramid: closed-form vertex and edge counts, acyclic ---- *)
+Theorem C15_dag_path : forall len, 0 <= len -> exists G, gg_dag_path len = GGOk G /\
+  io_kind G = KDirected /\ io_n G = len + 1 /\ gg_nedges G = len /\ gio_is_dag G = true /\
+  (forall u v, In (u, v) (io_edges G) <-> 1 <= u <= len /\ v = u + 1).
+Proof. exact dag_path_shape. Qed.
+Print Assumptions C15_dag_path.
+Theorem C15_dag_tree : forall h, 0 <= h -> exists G, gg_dag_tree h = GGOk G /\
+  io_kind G = KDirected /\ io_n G = 2 ^ (h + 1) - 1 /\ gg_nedges G = 2 ^ (h + 1) - 2 /\ gio_is_dag G = true.
+Proof. exact dag_tree_shape. Qed.
+Print Assumptions C15_dag_tree.
+Theorem C15_dag_pyramid : forall h, 0 <= h -> exists G, gg_dag_pyramid h = GGOk G /\
+  io_kind G = KDirected /\ io_n G = (h + 1) * (h + 2) / 2 /\ gg_nedges G = h * (h + 1) /\ gio_is_dag G = true.
+Proof. exact dag_pyramid_shape. Qed.
+Print Assumptions C15_dag_pyramid.
+Theorem C15_dag_negative_refused : forall h, h < 0 ->
+  gg_dag_path h = GGRaise EValueError /\ gg_dag_tree h = GGRaise EValueError /\ gg_dag_pyramid h = GGRaise EValueError.
+Proof. exact dag_negative_refused. Qed.
+Print Assumptions C15_dag_negative_refused.
+Example C15_dag_nonvacuous :
+  gg_dag_pyramid 2 = GGOk (mkIOG KDirected [] 6 0 [(1,4); (2,4); (2,5); (3,5); (4,6); (5,6)]) /\
+  gg_dag_tree 2 = GGOk (mkIOG KDirected [] 7 0 [(1,5); (2,5); (3,6); (4,6); (5,7); (6,7)]) /\
+  gg_dag_path 3 = GGOk (mkIOG KDirected [] 4 0 [(1,2); (2,3); (3,4)]).
+Proof. vm_compute. repeat split. Qed.
